@@ -928,10 +928,15 @@ def loop_call(I, fv, args, kw):
     name = fv.name.split(".")[-1]
     from .interp import VCoro
     if name == "create_connection":
-        used(I, "loop.create_connection(factory, host, port): OSError, or (transport, factory()) after protocol.connection_made(transport)")
+        used(I, "loop.create_connection(factory, host, port): OverflowError iff port is not in 0..65535, OSError, or (transport, factory()) after protocol.connection_made(transport)")
         factory = args[0]
+        port = I.resolve(args[2]) if len(args) > 2 else None
 
         def thunk():
+            if isinstance(port, VInt) and not isinstance(port, VBool):
+                okp = z3.And(port.as_int() >= 0, port.as_int() <= 65535) if port.c is None else (0 <= port.c <= 65535)
+                if not (okp if isinstance(okp, bool) else I.path.branch(okp, "port_range")):
+                    I.raise_py("builtins.OverflowError", "port must be 0-65535")
             if I.path.choose(2, "connect") == 1:
                 I.raise_py("builtins.ConnectionRefusedError", "connect failed")
             proto = I.call(factory, [], {})
